@@ -146,6 +146,11 @@ def run(ctx):
     thorough = ctx.tier == "thorough"
     rng = ctx.rng
     ctx.proofs()
+    try:        # gini_coefficient is parallel=True: a small thread team avoids stalls on a shared machine
+        import numba
+        numba.set_num_threads(min(2, numba.config.NUMBA_NUM_THREADS))
+    except Exception:
+        pass
 
     # ================= gini / lorenz / ecdf
     lens = ([1, 1, 2, 2, 3, 4, 5, 199, 200] + [rng.randrange(1, 201) for _ in range(200 if thorough else 14)]
@@ -225,7 +230,7 @@ def run(ctx):
     orders += [(2, 1), (3, 1), (4, 1), (4, 2), (1, 3), (2, 2), (0, 2)]
     fixed = [([0.5, 0.2], [0.3], 1.0)]     # the D6 witness
     for (p, q) in orders:
-        fixed.append((stable_poly(rng, p), [-c for c in stable_poly(rng, q)], rng.choice([1.0, 0.5, 2.0, 1.25])))
+        fixed.append(([-c for c in stable_poly(rng, p)], stable_poly(rng, q), rng.choice([1.0, 0.5, 2.0, 1.25])))
     with warnings.catch_warnings():
         warnings.simplefilter("ignore")
         for phi_l, theta_l, sigma in fixed:
